@@ -315,7 +315,31 @@ def run(ctx):
         ctx.check('C05.X1', r is None, rb.name, 'AddTarget-failure:reaches-Build', rb.where(e),
                   'a failed AddTarget with a non-empty error cannot reach Builder::Build',
                   witness=None if r is None else {'blocks': r[0]})
-    ctx.floor('C05.X1', 4)
+    # the error above is raised when the plan walks through a dirty edge to its leaves; the walk stops at an edge whose outputs
+    # are "ready" - so a dirty edge (a phony alias over a missing source is dirty for exactly that reason) must not come out of
+    # the scan as ready, the one exception being a phony edge without any inputs
+    scan_ = prog.fn('DependencyScan::RecomputeNodeDirty')
+    stores_ = [e for e in scan_.events('asg') if mentions_field(e['l'], 'Edge::outputs_ready_') and const_value(e.get('r')) in (0, False)]
+    nd_ = 0
+    for bid, b in scan_.blocks.items():
+        for i, s2 in enumerate(b['succ']):
+            if s2 is None or not any(k_ == 'dirty' and p_ is True for k_, p_, a_ in scan_.edge_facts(bid, i)):
+                continue
+            if not any(scan_.ev_reaches({'_b': s2, '_i': -1}, st) or st['_b'] == s2 for st in stores_):
+                continue
+            # only the last test of `dirty` in front of the store counts: no other dirty-test between
+            if any(k_ == 'dirty' for st in stores_ for bb in scan_.reachable_from(s2) if st['_b'] in scan_.reachable_from(bb)
+                   for ii in range(len(scan_.blocks[bb]['succ'])) for k_, p_, a_ in scan_.edge_facts(bb, ii)):
+                continue
+            nd_ += 1
+            r_ = scan_.find_path(None, lambda x: x['k'] == 'ret' and const_value(x.get('e')) == 1, from_succ=s2, sensitive=False,
+                                 is_blocker=lambda x: any(x is y for y in stores_),
+                                 edge_ok=lambda b2, i2, s3: not any(p_ is True and 'Edge::inputs_' in k_ and 'empty' in k_ for k_, p_, a_ in scan_.edge_facts(b2, i2)))
+            ctx.check('C05.X1', r_ is None, scan_.name, 'dirty-edge:left-ready', 'src/graph.cc:%s' % (b.get('term') or {}).get('line', '?'),
+                      'a dirty edge leaves the scan with outputs_ready_ = false unless it is a phony edge without inputs',
+                      witness=None if r_ is None else {'blocks': r_[0]})
+    ctx.check('C05.X1', nd_ >= 1 and bool(stores_), scan_.name, 'dirty-edge:test-absent', scan_.loc, 'the scan marks a dirty edge as not ready (%d test edges)' % nd_)
+    ctx.floor('C05.X1', 6)
 
     # ---- G5: a failed command must not stay "up to date" through an older log entry ---------
     R('C05.G5', 'G', 'necessary for "the next build retries it": when a command fails, either its '
